@@ -142,3 +142,63 @@ Definition verify_role (a : azone) (addr : N) (roles : list (N * rule)) (owner :
 (* check_authorization_against_role_list: authorized by the first role of the list that passes *)
 Definition verify_role_list (a : azone) (addr : N) (roles : list (N * rule)) (owner : rule) (keys : list N) : bool :=
   existsb (verify_role a addr roles owner) keys.
+
+(* ------------------------------------------------------------------------------------------ *)
+(* Construction of the auth zone of a new call frame                                           *)
+(* radix-engine/src/system/system_modules/auth/auth_module.rs  AuthModule::create_auth_zone    *)
+(* (called by on_call_function / on_call_method before check_permission)                       *)
+(* ------------------------------------------------------------------------------------------ *)
+(* How the direct caller's node is visible to its own frame (`reference_origin`): a global object
+   (or loaded from the substates of one), a directly accessed vault, an internal reference found
+   in a substate, or a node passed into / created in the frame. *)
+Inductive origin := OGlobal (addr : N) | ODirect | OSubstateRef | OFrameOwned.
+(* Actor of the calling frame: Root, a blueprint function (global-caller identity of the blueprint,
+   package), or a method (package, origin of its receiver). *)
+Inductive caller := CRoot | CFunction (gcid pkg : N) | CMethod (pkg : N) (o : origin).
+(* What is called: a function, or a method on a receiver (is it global? via direct access?). *)
+Inductive recv := RFunction | RMethod (is_global direct_access : bool).
+
+Definition FRAME_OWNED_MARKER : N := 999999.           (* FRAME_OWNED_GLOBAL_MARKER = TRANSACTION_TRACKER *)
+
+(* an auth zone as created for a frame: direct caller package, global caller (identity,
+   is_actually_frame_owned, the chain of its leaf zone), parent chain.  A zone's own chain is its
+   current content followed by its parent chain; while a frame is suspended in a call its zone
+   cannot change, so the content at call time is what every deeper check reads. *)
+Record fzone := { fz_pkg : option N; fz_gc : option (N * bool * list zdata); fz_par : list zdata }.
+Definition root_zone : fzone := {| fz_pkg := None; fz_gc := None; fz_par := [] |}.
+
+Definition caller_pkg (c : caller) : option N :=
+  match c with CRoot => None | CFunction _ p => Some p | CMethod p _ => Some p end.
+(* is_global_context_change *)
+Definition is_change (r : recv) : bool := match r with RFunction => true | RMethod g d => g || d end.
+
+(* cz = the direct caller's zone, cdata = its content at the time of the call *)
+Definition create_zone (cz : fzone) (cdata : zdata) (c : caller) (r : recv) : fzone :=
+  let change := is_change r in
+  let cchain := cdata :: fz_par cz in
+  let gc :=
+    match c with
+    | CRoot => None
+    | CMethod _ (OGlobal addr) => if change then Some (addr, false, cchain) else fz_gc cz
+    | CMethod _ ODirect => None
+    | CMethod _ OSubstateRef => None
+    | CMethod _ OFrameOwned =>
+        match fz_gc cz with Some _ => Some (FRAME_OWNED_MARKER, true, cchain) | None => None end
+    | CFunction g _ => if change then Some (g, false, cchain) else fz_gc cz
+    end in
+  {| fz_pkg := caller_pkg c;
+     fz_gc := gc;
+     fz_par := if change then [] else match c with CRoot => [] | _ => cchain end |}.
+
+Definition to_azone (z : fzone) : azone := {| az_pkg := fz_pkg z; az_gc := fz_gc z; az_parent := fz_par z |}.
+
+(* a call chain, newest call first: (actor of the caller, content of the caller's zone, receiver) *)
+Definition call := (caller * zdata * recv)%type.
+Fixpoint build (l : list call) : fzone :=
+  match l with
+  | [] => root_zone
+  | (c, d, r) :: t => create_zone (build t) d c r
+  end.
+(* authorization of the newest call of the chain against a role list *)
+Definition verify_call (l : list call) (addr : N) (roles : list (N * rule)) (owner : rule) (keys : list N) : bool :=
+  verify_role_list (to_azone (build l)) addr roles owner keys.
